@@ -34,13 +34,18 @@ RULE = ("text stream: every truncation of hand-written documents and of tests/fi
         "errors rendered (to_dict/str/repr) by a logging middleware, by the resolver, or at creation (module-level constants living across "
         "requests) before the executor registers them; extensions as dict / OrderedDict / MappingProxyType / custom Mapping / nested containers; "
         "3-request histories where each rendered response is decorated (requestId) before the next request; "
-        "execution-time argument coercion failures under lists of 2-4 items on all 4 configurations; non-trivial = distinct "
+        "ResolverErrors raised while a value is COMPLETED (resolve_type of abstract types, lazy iterables failing mid-iteration, custom serialisers) "
+        "at object/list/leaf positions; @skip/@include on fields, inline fragments and spreads whose condition only fails at execution time "
+        "(root and nested, below lists); numeric extremes (inf, nan, 1e308, 10**400, 2**31, denormals...) as variables and literals for Int/Float/ID/"
+        "Boolean/custom scalars; execution-time argument coercion failures under lists of 2-4 items on all 4 configurations; non-trivial = distinct "
         "(text, operation name, variables, world) whose response has errors, or whose data has depth >= 2")
 ASSUMPTIONS = [
     "resolvers return values their field type can serialise, or raise the library's ResolverError; any other exception "
     "(incl. RuntimeError 'cannot be serialized' for a wrong/non-finite value) propagates by design (pinned by tests/test_execution) and is outside the statement",
     "custom scalar serialisers return JSON values; error `extensions` supplied by the application are Mappings (any kind) of JSON values",
     "a server may decorate the TOP LEVEL of an error's `extensions` in a rendered response; mutation of NESTED containers inside extensions is not exercised (to_dict copies one level)",
+    "a root-level failure (root selection set cannot be collected) is the site with the EMPTY path: `data` is null and there is exactly one error, "
+    "without a `path` entry; errors collected below a field before its completion failed are dominated by that field's error and not counted",
     "lines of the submitted text are delimited by the spec's LineTerminator (LF | CR | CRLF)",
 ]
 TRUSTED = [
@@ -249,13 +254,18 @@ def outcome_tree(world, schema, data, coercion_nodes=None):
             if c is None:
                 if dv[k] is None:
                     # never resolved and null: argument coercion failed (`fail`), same path as a raised resolver
-                    out.append({"key": k, "ty": {"k": "named", "n": "<unresolved>"}, "nodes": coercion_nodes.get(parent + (k,), []),
+                    out.append({"key": k, "ty": {"k": "named", "n": "<unresolved>"}, "nodes": coercion_nodes.get(parent + (k,), ([], None))[0],
                                 "o": {"k": "raised", "msg": "<coercion>", "ext": None}})
                 else:
                     out.append({"key": k, "ty": {"k": "named", "n": "<introspection>"}, "nodes": [], "o": {"k": "leaf", "v": dv[k]}})
                 continue
             path, ftype, nodes, o = c
             sub = dv.get(k) if isinstance(dv, dict) else None
+            if o[0] == "value" and sub is None and path in coercion_nodes and (path in world.completion_raised or composite_value(o[1])):
+                # the field's value was resolved but its COMPLETION failed: null + one error, like a raised resolver
+                cn, cext = coercion_nodes[path]
+                out.append({"key": k, "ty": ty_json(ftype), "nodes": cn, "o": {"k": "raised", "msg": "<completion>", "ext": cext}})
+                continue
             if o[0] == "raised":
                 node = {"k": "raised", "msg": O.clean(o[1]), "ext": O.enc(o[2]) if o[2] is not None else None}
             else:
@@ -279,29 +289,50 @@ def outcome_tree(world, schema, data, coercion_nodes=None):
     return fields((), data)
 
 
+def composite_value(v):
+    """a resolver value whose completion can never yield null: an object (dict with a type name) or a list / lazy iterable"""
+    return isinstance(v, (list, G.LazyList)) or (isinstance(v, dict) and "__typename__" in v)
+
+
 def expected_sites(world, data):
     """
-    The statement's right-hand side, computed WITHOUT looking at the errors: fields whose resolver raised,
-    nulls at non-null positions, and fields that are null in `data` although the world never resolved them
-    (their argument coercion failed at execution time: `resolve_field` -> `fail`). Introspection fields
-    (`__typename`) are never resolved by the world either, but are never null.
-    -> (sites, unresolved_null_sites)
+    The statement's right-hand side, computed WITHOUT looking at the errors:
+      * fields whose resolver raised;
+      * nulls at non-null positions;
+      * fields that are null in `data` although the world never resolved them (argument coercion failed at execution time);
+      * fields the world resolved to an object / list (or to a value whose completion raised ResolverError: `resolve_type`,
+        lazy iterable, custom serialiser; or whose selection set could not be collected: invalid @skip/@include condition)
+        and that are null in `data`: COMPLETION FAILURE of the field, one error with the field's path, no second error
+        for a non-null type. Errors collected below such a field before it failed are dominated by it;
+      * `data` itself null after execution started (the root selection set could not be collected): the ROOT is the
+        site, its path is empty and the error carries no `path` entry.
+    Introspection fields (`__typename`) are never resolved by the world either, but are never null.
+    -> (sites, unresolved null sites, completion failure sites)
     """
     from py_gql.schema import ListType, NonNullType
+    if data is None:
+        return [()], [], []
     raised = [tuple(p) for p, _t, _n, o in world.calls if o[0] == "raised"]
     ftypes = {tuple(p): t for p, t, _n, o in world.calls}
+    values = {tuple(p): o[1] for p, _t, _n, o in world.calls if o[0] == "value"}
     sites = list(raised)
     unresolved = []
+    completion = []
     skip = set(sites)
 
     def walk_obj(v, path):
         for k, x in v.items():
-            ft = ftypes.get(path + (k,))
+            p = path + (k,)
+            ft = ftypes.get(p)
             if ft is not None:
-                walk(ft, x, path + (k,))
+                if x is None and p in values and (p in world.completion_raised or composite_value(values[p])):
+                    sites.append(p)
+                    completion.append(p)
+                    continue
+                walk(ft, x, p)
             elif x is None:
-                sites.append(path + (k,))
-                unresolved.append(path + (k,))
+                sites.append(p)
+                unresolved.append(p)
 
     def walk(t, v, path):
         if isinstance(t, NonNullType):
@@ -317,7 +348,7 @@ def expected_sites(world, data):
             walk_obj(v, path)
     if isinstance(data, dict):
         walk_obj(data, ())
-    return sites, unresolved
+    return sites, unresolved, completion
 
 
 # ---------------------------------------------------------------------------
@@ -410,14 +441,24 @@ def check_case(ctx, case, pending):
         fail("no-errors-after-%s-failure" % failed, "stage failed but the response has no errors", {"response": O.enc(resp)})
     # --- null <-> error bijection -----------------------------------------------------------------
     if failed is None and world is not None and has_data:
-        sites, unresolved = expected_sites(world, resp["data"])
+        sites, unresolved, completion = expected_sites(world, resp["data"])
+        if resp["data"] is None:
+            ctx.stat("root-selection-not-collected")
+        if completion:
+            ctx.stat("requests-with-completion-failures")
+            ctx.stat("completion-failure-sites", len(completion))
+            ctx.stat("completion-failures:raised-while-completing", len([p for p in completion if p in world.completion_raised]))
+
+        def dominated(p):
+            return any(len(d) < len(p) and tuple(p[:len(d)]) == d for d in completion)
+        sites = [p for p in sites if not dominated(p)]
         if unresolved:
             ctx.stat("requests-with-argument-coercion-failures")
             ctx.stat("argument-coercion-failure-sites", len(unresolved))
             if any(isinstance(x, int) for p in unresolved for x in p):
                 ctx.stat("argument-coercion-failures-under-lists")
         want = sorted(sites, key=repr)
-        got = sorted((tuple(e.get("path") or ()) for e in resp.get("errors", [])), key=repr)
+        got = sorted((p for p in (tuple(e.get("path") or ()) for e in resp.get("errors", [])) if not dominated(p)), key=repr)
         if want != got:
             missing = [p for p in want if p not in got]
             extra = [p for p in got if p not in want]
@@ -433,7 +474,7 @@ def check_case(ctx, case, pending):
         for e in resp.get("errors", []):
             by_path.setdefault(tuple(e.get("path") or ()), []).append(e)
         for p, _t, _n, o in world.calls:
-            if o[0] == "raised" and len(by_path.get(tuple(p), [])) == 1:
+            if o[0] == "raised" and len(by_path.get(tuple(p), [])) == 1 and not dominated(tuple(p)):
                 e = by_path[tuple(p)][0]
                 want_ext = O.enc(o[2]) if o[2] else None
                 if O.enc(e.get("extensions")) != want_ext:
@@ -493,16 +534,27 @@ def check_case(ctx, case, pending):
         pending.append(({"op": "process", "stages": stages, "real": real}, on_answer))
         if failed is None and world is not None and cfg == "blocking":
             world_s.calls = calls_blocking
-            # positions of the field node of the execution-time CoercionErrors (only to place the model's locations)
+            # node position / extensions of the errors of fields that failed WITHOUT their resolver raising (argument
+            # coercion, completion): only used to place the model's locations
             cnodes = {}
+            world_paths_raised = {tuple(p) for p, _t, _n, o in calls_blocking if o[0] == "raised"}
             for e in res.errors:
-                if type(e).__name__ in ("CoercionError", "MultiCoercionError") and e.path:
-                    cnodes.setdefault(tuple(e.path), [n.loc[0] for n in e.nodes if n.loc][:1])
-            tree = outcome_tree(world_s, sync_schema, stages["exec"]["data"], cnodes)
+                if e.path and tuple(e.path) not in world_paths_raised and not str(e).endswith("is not nullable"):
+                    cnodes.setdefault(tuple(e.path), ([n.loc[0] for n in e.nodes if n.loc][:1],
+                                                      O.enc(dict(e.extensions)) if getattr(e, "extensions", None) is not None else None))
+            world_s.completion_raised = set(world.completion_raised) if cfg == "blocking" else world_s.completion_raised
+            if stages["exec"]["data"] is None:
+                tree = None
+            else:
+                tree = outcome_tree(world_s, sync_schema, stages["exec"]["data"], cnodes)
+            _s, _u, completion_b = expected_sites(world_s, res.data)
             raised_paths = {tuple(p) for p, _t, _n, o in calls_blocking if o[0] == "raised"}
             real_errs = []
             for e in res.errors:
                 a = abs_err(e)
+                pp = tuple(a.get("path") or ())
+                if any(len(d) < len(pp) and pp[:len(d)] == d for d in completion_b):
+                    continue        # collected below a field whose completion failed afterwards
                 if tuple(a.get("path") or ()) not in raised_paths:
                     a["msg"] = "<nonnull>"
                 if a["cls"] == "located":      # CoercionError through `fail`: same dictionary as a ResolverError without extensions
@@ -525,7 +577,18 @@ def check_case(ctx, case, pending):
                              dict(detail, tree=tree), kind="correspondence")
                 if ans.get("bijection") is False:
                     ctx.fail("corr:model-bijection", "the model's own errors are not in bijection with its null sites", dict(detail, model=ans), kind="correspondence")
-            pending.append(({"op": "exec", "fields": tree, "len": len(text)}, on_exec))
+            if tree is not None:
+                pending.append(({"op": "exec", "fields": tree, "len": len(text)}, on_exec))
+            elif len(res.errors) == 1:
+                # the root selection set could not be collected: `executeRequest (some …)` of the model
+                a = abs_err(res.errors[0])
+
+                def on_root(ans, a=a, detail=detail):
+                    want = {"data": None, "errors": [dict(a, cls="resolver", ext=a.get("ext"))]}
+                    if ans.get("exec") != want:
+                        ctx.fail("corr:root-collect-failure", "model of execute()'s root-collection failure differs from the real result",
+                                 dict(detail, model=ans, real=want), kind="correspondence")
+                pending.append(({"op": "exec_root", "msg": a["msg"], "nodes": a.get("nodes")}, on_root))
     return sigs
 
 
@@ -551,7 +614,10 @@ def flush(ctx, pending):
 # streams
 
 BASE_SDL = """
-type Query { a(x: Int, s: String): Int, b: String!, f: Float, l: [Int!]!, o: Obj, os: [Obj!], u: Un, oss: [[Obj]] }
+scalar Sc
+type Query { a(x: Int, s: String): Int, b: String!, f: Float, l: [Int!]!, o: Obj, os: [Obj!], u: Un, oss: [[Obj]],
+  us: [Un!], un: Un!, uss: [[Un]], sc: Sc, scs: [Sc!]!, num(i: Int, fl: Float, id: ID, sc: Sc, b: Boolean, fls: [Float!]): Int,
+  echoI(i: Int): Int, echoF(fl: Float): Float, echoId(id: ID): ID, echoS(s: String): String }
 type Obj { id: ID!, n: Obj, v: Float!, w(x: Int! = 7): Int, p(among: [Int!]): Int!, q(i: In): Int, ns: [Obj!]! }
 type Other { z: Int }
 union Un = Obj | Other
@@ -635,10 +701,31 @@ def install_world_resolvers(schema, holder, asyncio_mode=False):
             def resolver(root, c, info, **args):
                 return run(info)
         return resolver
+    from py_gql.schema import InterfaceType, UnionType, ScalarType, SPECIFIED_SCALAR_TYPES
+
+    def resolve_type(value, c, info):
+        if isinstance(value, dict) and "__raise__" in value:
+            value["__raise__"]("cannot resolve the type")      # raises ResolverError
+        return value.get("__typename__") if isinstance(value, dict) else None
+
+    def wrap_serialize(inner):
+        def serialize(v):
+            if isinstance(v, G.RaiseOnSerialize):
+                v.fire("cannot serialise")                       # raises ResolverError
+            return inner(v)
+        return serialize
     for t in schema.types.values():
         if isinstance(t, ObjectType) and not t.name.startswith("__"):
             for i, f in enumerate(t.fields):
-                f.resolver = make(f.type, asyncio_mode and (i % 2 == 0))
+                if f.name.startswith("echo"):
+                    f.resolver = lambda root, c, info, **args: (list(args.values()) or [None])[0]
+                else:
+                    f.resolver = make(f.type, asyncio_mode and (i % 2 == 0))
+        elif isinstance(t, (InterfaceType, UnionType)):
+            t.resolve_type = resolve_type
+        elif isinstance(t, ScalarType) and t not in SPECIFIED_SCALAR_TYPES and not getattr(t, "_c10_wrapped", False):
+            t._serialize = wrap_serialize(t._serialize)
+            t._c10_wrapped = True
 
 
 class Holder:
@@ -747,6 +834,60 @@ def _run(ctx, rng, pending):
             for cfg in (CONFIGS if k < 2 else ["blocking", CONFIGS[1 + k % 3]]):
                 check_case(ctx, make_case("argcoerce", BASE_SDL, base, cfg, text, None, vs, w), pending)
     flush(ctx, pending)
+    # COMPLETION-time ResolverErrors (resolve_type of a union, lazy iterable failing mid-iteration, custom serialiser) at
+    # object / list / leaf positions, all four configurations
+    compl = ["{ us { __typename ... on Obj { id v } } un { ... on Other { z } } sc scs }",
+             "{ os { id v n { id } } oss { id ns { v } } uss { ... on Obj { id } } }",
+             "{ o { ns { id n { v } } } l a u { __typename } }", "mutation { m }"]
+    for k in range(ctx.n(6, 30)):
+        w = {"seed": 700 + k, "p_raise": [0.0, 0.15][k % 2], "p_null": 0.05, "p_null_nn": [0.0, 0.2][k % 2], "min_items": 2, "p_complete": [0.5, 0.9][k % 2]}
+        for text in compl:
+            for cfg in (CONFIGS if k < 3 else ["blocking", CONFIGS[1 + k % 3]]):
+                check_case(ctx, make_case("completion", BASE_SDL, base, cfg, text, None, None, w, middleware=(k % 3 == 2)), pending)
+    flush(ctx, pending)
+    # @skip / @include conditions that only fail at EXECUTION time (nullable variable with a default explicitly null, omitted
+    # variables, list literal), on fields, inline fragments and spreads, at the root and nested (also below lists)
+    dirs = [
+        ("query($v: Boolean = true) { a b @skip(if: $v) }", {"v": None}),
+        ("query($v: Boolean = true) { a ... on Query @include(if: $v) { b } }", {"v": None}),
+        ("query($v: Boolean = true) { a ...F @skip(if: $v) } fragment F on Query { b }", {"v": None}),
+        ("query($v: Boolean = true) { o { id @skip(if: $v) v } a }", {"v": None}),
+        ("query($v: Boolean = true) { os { id n { v @include(if: $v) } } oss { ... on Obj @skip(if: $v) { id } } }", {"v": None}),
+        ("query($v: Boolean = true) { o { n { ...G @include(if: $v) } ns { id } } } fragment G on Obj { id }", {"v": None}),
+        ("query($v: Boolean = true) { us { ... on Obj { id @skip(if: $v) } ... on Other { z } } un { __typename } }", {"v": None}),
+        ("query($v: Boolean = true) { a b @skip(if: $v) o { id @include(if: $v) } }", {}),
+        ("query($v: Boolean = true) { a b @skip(if: $v) o { id @include(if: $v) } }", {"v": False}),
+        ("query($v: Boolean) { a b @skip(if: $v) }", {}),
+        ("query($v: Boolean) { a o { id @include(if: $v) } }", {"v": None}),
+        ("query($v: Boolean!) { a b @skip(if: $v) }", {"v": None}),
+        ("query($v: Boolean = true) { num(fls: [1.5, $v]) a }", {"v": None}),
+        ("query($n: Float) { os { id } num(fls: [1, $n]) }", {}),
+        ("mutation($v: Boolean = true) { m @skip(if: $v) }", {"v": None}),
+    ]
+    for k in range(ctx.n(3, 12)):
+        w = {"seed": 800 + k, "p_raise": [0.0, 0.2][k % 2], "p_null": 0.05, "p_null_nn": 0.1, "min_items": 2}
+        for text, vs in dirs:
+            for cfg in (CONFIGS if k == 0 else ["blocking", CONFIGS[1 + k % 3]]):
+                check_case(ctx, make_case("directives", BASE_SDL, base, cfg, text, None, vs, w), pending)
+    flush(ctx, pending)
+    # numeric EXTREMES in variables (through a permissive JSON parser) and literals, for Int / Float / ID / custom scalar
+    inf = float("inf")
+    extremes = [inf, -inf, float("nan"), 1e308, -1e308, 10 ** 400, -10 ** 400, 2 ** 31, -2 ** 31 - 1, 2 ** 31 - 1, 2 ** 53 + 1, 1e-320, 5e-324, -0.0, 1e22,
+                True, "1e999", "inf", "NaN", [], {}]
+    for arg, ty in (("i", "Int"), ("fl", "Float"), ("id", "ID"), ("sc", "Sc"), ("b", "Boolean")):
+        for j, x in enumerate(extremes):
+            for nn in ("", "!"):
+                text = "query($x: %s%s) { num(%s: $x) %s }" % (ty, nn, arg, {"i": "echoI(i: $x)", "fl": "echoF(fl: $x)", "id": "echoId(id: $x)"}.get(arg, "a"))
+                cfg = CONFIGS[(j + len(nn)) % 4]
+                check_case(ctx, make_case("extremes", BASE_SDL, base, cfg, text, None, {"x": x}, quiet_world), pending)
+    lits = ["1e999", "-1e999", "1e308", "1e-999", "1e-320", "99999999999999999999999999", "-99999999999999999999999999", "2147483648", "-2147483649",
+            "2147483647", "1" + "0" * 400, "0.0000000000000000000000000000000000000001", "1E400"]
+    for j, lit in enumerate(lits):
+        for text in ("{ num(i: %s) echoI(i: %s) }", "{ num(fl: %s) echoF(fl: %s) }", "{ num(id: %s) echoId(id: %s) }", "{ num(sc: %s) a }",
+                     "query($x: Float = %s) { echoF(fl: $x) a }", "query($x: Int = %s) { echoI(i: $x) }", "{ num(fls: [1, %s]) }"):
+            t = text % ((lit,) * text.count("%s"))
+            check_case(ctx, make_case("extremes", BASE_SDL, base, CONFIGS[j % 4], t, None, None, quiet_world), pending)
+    flush(ctx, pending)
     # HISTORIES: the same request three times in a row (module-level constant errors are re-raised by every request; each
     # rendered response is decorated by the "server" before the next request), lists of >= 2 items, errors rendered by a
     # logging middleware / by the resolver before they reach the executor, extensions of every Mapping kind
@@ -792,7 +933,7 @@ def _run(ctx, rng, pending):
             for t in req["tags"]:
                 ctx.stat(t)
             w = {"seed": rng.randrange(10 ** 6), "p_raise": rng.choice([0.0, 0.1, 0.3]), "p_null": rng.choice([0.05, 0.2]),
-                 "p_null_nn": rng.choice([0.0, 0.1, 0.3])}
+                 "p_null_nn": rng.choice([0.0, 0.1, 0.3]), "p_complete": rng.choice([0.0, 0.0, 0.25])}
             cfgs = ["blocking"] + ([rng.choice(CONFIGS[1:])] if r % 3 == 0 else [])
             for cfg in cfgs:
                 check_case(ctx, make_case("gen", sdl, built, cfg, text, req["operation_name"], req["variables"], w, middleware=(r % 4 == 1)), pending)
